@@ -58,6 +58,7 @@ class BaseSection(base.Sectionable):
     _link = None
     _include = None
     _merged = None
+    _merged_attributes = None
 
     _format = fmt.Section
 
@@ -750,10 +751,14 @@ class BaseSection(base.Sectionable):
         self.merge_check(section, strict)
         self._merge_name_check(section)
 
+        # Remember which attributes have been taken over to be able to unmerge them.
+        merged_attributes = []
         if self.definition is None and section.definition is not None:
             self.definition = section.definition
+            merged_attributes.append("definition")
         if self.reference is None and section.reference is not None:
             self.reference = section.reference
+            merged_attributes.append("reference")
 
         for obj in section:
             mine = self.contains(obj)
@@ -764,6 +769,7 @@ class BaseSection(base.Sectionable):
                 mine._merged = obj
                 self.append(mine)
         self._merged = section
+        self._merged_attributes = merged_attributes
 
     @inherit_docstring
     def clean(self):
@@ -789,6 +795,12 @@ class BaseSection(base.Sectionable):
                 mine.unmerge(obj)
         for obj in removals:
             self.remove(obj)
+
+        # Also remove attributes that have only been taken over from the merged section.
+        for attr in self._merged_attributes or []:
+            if getattr(self, attr) == getattr(section, attr):
+                setattr(self, attr, None)
+        self._merged_attributes = None
 
         # The path may not be valid anymore, so make sure to update it.
         # However this does not reflect changes happening while the section
